@@ -198,7 +198,7 @@ prop("C05",
 
 prop("C06",
      [r_data.rule_null_guard, r_data.rule_null_table, r_data.rule_null_write, r_sec.rule_steer, r_data.rule_counter,
-      r_data.rule_null_flat],
+      r_data.rule_null_flat, r_num.rule_numlit],
      "Guard analysis of the NULL->NaN store in LASFile.read: the store `column[mask] = nan` must exist, its mask must be "
      "an exact `column == <value taken from ~Well NULL>` with no call and no tolerance/rounding function in its "
      "provenance (NULL.EXACT), and by control dependence it executes exactly under: the policy flag (third result of "
@@ -216,7 +216,8 @@ prop("C06",
 
 prop("C07",
      [r_data.rule_wrap_count, r_data.rule_tokenizer, r_sec.rule_line_normalise, r_data.rule_counter, r_data.rule_reshape,
-      r_data.rule_split, r_sec.rule_reseek, r_sec.rule_end_test, r_si.rule_compare, r_sec.rule_content_only_effects],
+      r_data.rule_split, r_sec.rule_reseek, r_sec.rule_end_test, r_si.rule_compare, r_sec.rule_content_only_effects,
+      r_data.rule_orient],
      "Column binding analysis: under the assumption WRAP == YES with declared curves, an explicit-state search of "
      "LASFile.read shows that the n_columns argument of the reference engine is never the per-line count sniffed by "
      "inspect_data_section, and all tests on the WRAP value fold to the same predicate over 9 probe values "
@@ -236,7 +237,8 @@ prop("C07",
 
 prop("C01",
      [r_data.rule_wrap_count, r_data.rule_wrap_tokens, r_data.rule_null_write, r_data.rule_null_guard, r_data.rule_reshape,
-      r_data.rule_counter, r_data.rule_null_flat, r_data.rule_read_subs, r_si.rule_compare],
+      r_data.rule_counter, r_data.rule_null_flat, r_data.rule_read_subs, r_si.rule_compare, r_num.rule_numlit,
+      r_data.rule_data_format],
      "Write->read pairing clauses: lasio's own wrapped output is re-read with the declared curve count, never the sniffed "
      "per-line count (DATA.WRAP-COUNT, explicit-state search under WRAP == YES); the writer's TextWrapper has "
      "width=data_width, break_long_words=False, break_on_hyphens=False, so lines break only at the blanks between values "
@@ -252,7 +254,7 @@ prop("C01",
 prop("C09",
      [r_data.rule_tokenizer, r_data.rule_trim, r_sec.rule_title_pred, r_sec.rule_end_test, r_sec.rule_line_normalise,
       r_sec.rule_reseek, r_data.rule_wrap_count, r_sec.rule_convention, r_data.rule_orient, r_sec.rule_content_only_effects,
-      r_data.rule_read_subs],
+      r_data.rule_read_subs, r_gr.rule_grammar],
      "Presentation-invariance clauses: the sniffer tokenises with the reader's DLM splitter (DATA.TOKENIZER); every "
      "splitter of the factory yields whitespace-free tokens - decided on the regex AST as a character set, or by strip() "
      "of each field - and comma splitting is positional (DATA.TRIM, DATA.SPLIT; COMMA and TAB trimming are recorded known "
@@ -270,7 +272,8 @@ prop("C09",
 
 prop("C02",
      [r_sec.rule_convention, r_sec.rule_end_test, r_sec.rule_line_normalise, r_data.rule_orient, r_data.rule_reshape,
-      r_sec.rule_reseek, r_sec.rule_scan, r_data.rule_null_flat, r_data.rule_split, r_sec.rule_content_only_effects],
+      r_sec.rule_reseek, r_sec.rule_scan, r_data.rule_null_flat, r_data.rule_split, r_sec.rule_content_only_effects,
+      r_data.rule_read_subs, r_data.rule_wrap_count, r_data.rule_space_tokens],
      "Engine-agreement clauses: both engines get the same line window - one interval convention for every section end and "
      "the matching affine skip_header = first+1 / max_rows = last-first after seek(0) in the fast engine (SEC.CONVENTION, "
      "SEC.SCAN); the reference engine and the sniffer count every physical line once, test for the section end on every "
@@ -286,7 +289,8 @@ prop("C02",
                 "value-level identity of the parsed numbers is not decided.")
 
 prop("C04",
-     [r_gr.rule_grammar, r_gr.rule_select, r_gr.rule_strip, r_hdrt.rule_no_state],
+     [r_gr.rule_grammar, r_gr.rule_select, r_gr.rule_strip, r_hdrt.rule_no_state, r_num.rule_finite_default, r_sec.rule_route,
+      r_sec.rule_title_pred],
      "Grammar summary by path enumeration: configure_metadata_patterns is enumerated over all consistent outcomes of its "
      "tests (same test text => same truth value), its pattern strings are constant-propagated, and each assembled "
      "pattern list is compared - as a canonical regex structure from re._parser: character classes as sets over a probe "
@@ -309,7 +313,7 @@ prop("C04",
 prop("C03",
      [r_wl.rule_measure, r_wl.rule_order_key, r_wl.rule_orig_mnem, r_wl.rule_template, r_wl.rule_hdr_post,
       r_wl.rule_ord_bijection, r_wl.rule_key_norm, r_gr.rule_grammar, r_gr.rule_select, r_gr.rule_strip, r_wrf.rule_standardize,
-      r_hdrt.rule_no_state, r_si.rule_pk_state, r_num.rule_finite_default, r_num.rule_curve_raw],
+      r_hdrt.rule_no_state, r_si.rule_pk_state, r_num.rule_finite_default, r_num.rule_curve_raw, r_hdrt.rule_steer_lookup],
      "Header write->read pairing clauses. Stage order per section in writer.write by CFG reachability: unit alignment / "
      "refresh -> normalisation by standardize_value -> width measurement -> formatting, no later stage followed by an "
      "earlier one (WR.MEASURE); every order lookup in the writer (5 call sites) is keyed by provenance by the item's "
@@ -329,7 +333,7 @@ prop("C03",
 
 prop("C12",
      [r_wl.rule_ord_table, r_wl.rule_ord_bijection, r_wl.rule_key_norm, r_wl.rule_order_key, r_wl.rule_copy_vers,
-      r_wl.rule_measure, r_wl.rule_template, r_num.rule_curve_raw],
+      r_wl.rule_measure, r_wl.rule_template, r_num.rule_curve_raw, r_hdrt.rule_steer_lookup],
      "Order-table agreement: the folded defaults.ORDER_DEFINITIONS has every version the writer admits, all four "
      "sections per version, well-formed (order, mnemonics) exceptions, 1.x ~Well = descr:value except STRT/STOP/STEP/NULL "
      "and 2.x/3.0 = value:descr throughout; reader (SectionParser.__init__) and writer (get_section_order_function) "
